@@ -102,6 +102,8 @@ def check(ctx):
                 bad = [x for x in (e['a'], e['b']) if x is not None and x.geo is not None and not (is_frac(x.geo) or x.geo[0] == 'SYMIMG')]
                 ctx.ob('R2', e['where'], e['node'], not bad, 'periodic distance on fractional coordinates' if not bad else
                        f'periodic distance receives {geo_text(bad[0].geo)}')
+    # site permutation / orientation: the site assignment itself (frame of the tree coordinates, aligned local -> global lookup)
+    ctx.include('C02', 'S', only=('R1', 'R2'))
     # ---- R3 / R4
     check_moves(ctx, R1='R4', R6='R3')
     # ---- R5 atom permutation: per-atom scans do not carry state from one atom to the next
